@@ -200,8 +200,9 @@ def switch_info(body, bb):
         if rv["r"] == "discr":
             vals = [int(v) for v in rv.get("vals", [])]
             dead = bool(vals) and set(vals) <= set(targets.keys())
+            names = dict(zip(vals, rv.get("vnames", [])))
             return {"kind": "discr", "place": rv["p"], "targets": targets, "otherwise": t["otherwise"], "bb": dbb,
-                    "enum": rv.get("enum"), "vals": vals, "otherwise_dead": dead}
+                    "enum": rv.get("enum"), "vals": vals, "otherwise_dead": dead, "names": names}
         if rv["r"] == "un" and rv["op"] == "Not":
             neg = not neg
             p2 = op_place(rv["a"])
@@ -253,4 +254,13 @@ def users_switches(body, local):
             if src is None or src["p"]:
                 break
             l = src["l"]
+    return out
+
+
+def arms_of(body, info):
+    """{variant name: target block} for a discriminant switch (the `otherwise` edge stands for every unlisted variant)."""
+    out = {}
+    names = info.get("names") or {}
+    for v, n in names.items():
+        out[n] = info["targets"].get(v, info["otherwise"])
     return out
